@@ -33,6 +33,7 @@ type inlMode struct {
 	consumer *ast.IfStmt
 	tmpName  string // the single LHS is a temporary introduced by this pass (no type information)
 	tmpType  ast.Expr
+	tmpT     types.Type
 }
 
 type guard struct {
